@@ -24,3 +24,244 @@ package ring
 //@   modifies r.next, r.prev
 //@   ensures old(r.next) == nil ==> (result == r && r.next == r && r.prev == r)
 //@   ensures old(r.next) != nil ==> (result == old(r.prev) && r.next == old(r.next) && r.prev == old(r.prev))
+
+// ---- the ring as a pair of maps (next, prev) over node references ----
+// it(nx, r, k): the node reached from r by k steps along the map nx.
+//@ pure func it(nx [int]int, r int, k int) int = k <= 0 ? r : nx[it(nx, r, k - 1)]
+// Lazy initialisation (container/ring: "the zero value for a Ring is a one-element ring"): the maps after
+// r.init() has run iff r.next == nil.
+//@ pure func initn(nx [int]int, r int) [int]int = nx[r] == nil ? update(nx, r, r) : nx
+//@ pure func initp(nx [int]int, pv [int]int, r int) [int]int = nx[r] == nil ? update(pv, r, r) : pv
+
+//@ func (*Ring).Link
+//@   tags C14 C07
+//@   requires r != nil
+//@   requires (s != nil && s.next != nil) ==> s.prev != nil
+//@   modifies allof(r.next), allof(r.prev)
+//@   ensures [C14.ring.link.result] result == (old(r.next) == nil ? r : old(r.next))
+//@   ensures [C14.ring.link.nil] s == nil ==> (fieldmap(r.next) == initn(old(fieldmap(r.next)), r) && fieldmap(r.prev) == initp(old(fieldmap(r.next)), old(fieldmap(r.prev)), r))
+//@   ensures [C14.ring.link.next] s != nil ==> fieldmap(r.next) ==
+//@        update(update(initn(initn(old(fieldmap(r.next)), r), s), r, s),
+//@               initp(initn(old(fieldmap(r.next)), r), initp(old(fieldmap(r.next)), old(fieldmap(r.prev)), r), s)[s], result)
+//@   ensures [C14.ring.link.prev] s != nil ==> fieldmap(r.prev) ==
+//@        update(update(initp(initn(old(fieldmap(r.next)), r), initp(old(fieldmap(r.next)), old(fieldmap(r.prev)), r), s), s, r),
+//@               result, initp(initn(old(fieldmap(r.next)), r), initp(old(fieldmap(r.next)), old(fieldmap(r.prev)), r), s)[s])
+
+// Ghost arguments. A caller that knows its ring as a sequence of nodes hands that sequence to Move / Len / Do in
+// gpath (gpath[0] is the receiver, gpath[k+1] the next of gpath[k], gpath[-k-1] the prev of gpath[-k]) and the cycle
+// length in gcyc; New reports the sequence it built the same way. They are specification state only.
+//@ ghost var gpath [int]int
+//@ ghost var gcyc int
+
+//@ func (*Ring).Move
+//@   tags C14 C07
+//@   requires r != nil
+//@   requires (r.next != nil && n > 0) ==> (gpath[0] == r && (forall k :: 0 <= k && k < n ==> (gpath[k] != nil && fieldmap(r.next)[gpath[k]] == gpath[k + 1])))
+//@   requires (r.next != nil && n < 0) ==> (gpath[0] == r && (forall k :: n < k && k <= 0 ==> (gpath[k] != nil && fieldmap(r.prev)[gpath[k]] == gpath[k - 1])))
+//@   modifies r.next, r.prev
+//@   ensures [C14.ring.move.init] old(r.next) == nil ==> (result == r && r.next == r && r.prev == r)
+//@   ensures [C14.ring.move.frame] old(r.next) != nil ==> (r.next == old(r.next) && r.prev == old(r.prev))
+//@   ensures [C14.ring.move.zero] (old(r.next) != nil && n == 0) ==> result == r
+//@   ensures [C14.ring.move.path] (old(r.next) != nil && n != 0) ==> result == gpath[n]
+//@   ensures [C14.ring.move.fwd] (old(r.next) != nil && n > 0) ==> result == it(fieldmap(r.next), r, n)
+//@   ensures [C14.ring.move.bwd] (old(r.next) != nil && n < 0) ==> result == it(fieldmap(r.prev), r, 0 - n)
+//@   loop 0 invariant [C14.ring.move.bwdstep] old(n) <= n && n <= 0 && r == gpath[old(n) - n] && r == it(fieldmap(r.prev), old(r), n - old(n))
+//@   loop 0 decreases 0 - n
+//@   loop 1 invariant [C14.ring.move.fwdstep] 0 <= n && n <= old(n) && r == gpath[old(n) - n] && r == it(fieldmap(r.next), old(r), old(n) - n)
+//@   loop 1 decreases n
+
+// cycle(nx, r, a, c): a[0..c] is the cycle through r along nx: c >= 1 distinct-from-r steps lead back to r.
+//@ pure func cycle(nx [int]int, r int, a [int]int, c int) bool = c >= 1 && a[0] == r && a[c] == r
+//@        && (forall k :: 0 <= k && k < c ==> (a[k] != nil && nx[a[k]] == a[k + 1])) && (forall k :: 0 < k && k < c ==> a[k] != r)
+
+//@ func (*Ring).Len
+//@   tags C14 C07
+//@   requires (r != nil && r.next != nil) ==> cycle(fieldmap(r.next), r, gpath, gcyc)
+//@   requires gcyc <= 0x7fffffffffffffff      // a ring in memory has at most MaxInt nodes (the model's address space is unbounded)
+//@   modifies r.next, r.prev
+//@   ensures [C14.ring.len.empty] r == nil ==> result == 0
+//@   ensures [C14.ring.len.init] (r != nil && old(r.next) == nil) ==> (result == 1 && r.next == r && r.prev == r)
+//@   ensures [C14.ring.len.frame] (r != nil && old(r.next) != nil) ==> (r.next == old(r.next) && r.prev == old(r.prev))
+//@   ensures [C14.ring.len.cycle] (r != nil && old(r.next) != nil) ==> result == gcyc
+//@   ensures [C14.ring.len.returns] r != nil ==> (result >= 1 && it(fieldmap(r.next), r, result) == r)
+//@   ensures [C14.ring.len.minimal] r != nil ==> (forall j :: 0 < j && j < result ==> it(fieldmap(r.next), r, j) != r)
+//@   loop 0 invariant [C14.ring.len.count1] old(r.next) == nil ==> (p == r && n == 1)
+//@   loop 0 invariant [C14.ring.len.count] old(r.next) != nil ==> (1 <= n && n <= gcyc && p == gpath[n])
+//@   loop 0 invariant p == it(fieldmap(r.next), r, n)
+//@   loop 0 invariant forall j :: 0 < j && j < n ==> it(fieldmap(r.next), r, j) != r
+//@   loop 0 decreases gcyc - n
+
+// New(n): a cycle of exactly n fresh, pairwise distinct nodes, doubly linked; the node sequence is reported in gpath.
+//@ func New
+//@   tags C14 C07
+//@   ghost seq [int]int
+//@   modifies gpath
+//@   ensures [C14.ring.new.empty] n <= 0 ==> result == nil
+//@   ensures [C14.ring.new.cycle] n > 0 ==> (result != nil && cycle(fieldmap(result.next), result, gpath, n))
+//@   ensures [C14.ring.new.prev] n > 0 ==> (forall k :: 0 <= k && k < n ==> fieldmap(result.prev)[gpath[k + 1]] == gpath[k])
+//@   ensures [C14.ring.new.fresh] n > 0 ==> (forall k :: 0 <= k && k < n ==> fresh(gpath[k]))
+//@   ensures [C14.ring.new.distinct] n > 0 ==> (forall j, k :: 0 <= j && j < k && k < n ==> gpath[j] != gpath[k])
+//@   ensures [C14.ring.new.zero] n > 0 ==> (forall k :: 0 <= k && k < n ==> fieldmap(result.Value)[gpath[k]] == zero(result.Value))
+//@   at store next#0 ghost seq = update(update(seq, i - 1, p), i, p.next)
+//@   at return ghost gpath = update(update(seq, 0, result), n, result)
+//@   loop 0 invariant 1 <= i && i <= n && r != nil && fresh(r) && p != nil && fresh(p)
+//@   loop 0 invariant i == 1 ==> p == r
+//@   loop 0 invariant i > 1 ==> (seq[0] == r && seq[i - 1] == p)
+//@   loop 0 invariant forall k :: 0 <= k && k < i - 1 ==> (fieldmap(r.next)[seq[k]] == seq[k + 1] && fieldmap(r.prev)[seq[k + 1]] == seq[k])
+//@   loop 0 invariant i > 1 ==> (forall k :: 0 <= k && k < i ==> (seq[k] != nil && fresh(seq[k])))
+//@   loop 0 invariant i > 1 ==> (forall j, k :: 0 <= j && j < k && k < i ==> seq[j] != seq[k])
+//@   loop 0 invariant r.Value == zero(r.Value) && p.Value == zero(r.Value)
+//@   loop 0 invariant i > 1 ==> (forall k :: 0 <= k && k < i ==> fieldmap(r.Value)[seq[k]] == zero(r.Value))
+//@   loop 0 decreases n - i
+
+// Unlink(n) = r.Link(r.Move(n + 1)); the caller hands the n + 1 forward steps from r in gpath (s = gpath[n + 1] is the
+// node that follows the removed ones; it is r itself when n + 1 is a multiple of the length: nothing is removed).
+//@ func (*Ring).Unlink
+//@   tags C14 C07
+//@   requires r != nil && n < 0x7fffffffffffffff
+//@   requires (r.next != nil && n > 0) ==> (gpath[0] == r && (forall k :: 0 <= k && k <= n ==> (gpath[k] != nil && fieldmap(r.next)[gpath[k]] == gpath[k + 1])))
+//@   requires (r.next != nil && n > 0 && gpath[n + 1] != nil && fieldmap(r.next)[gpath[n + 1]] != nil) ==> fieldmap(r.prev)[gpath[n + 1]] != nil
+//@   modifies allof(r.next), allof(r.prev)
+//@   ensures [C14.ring.unlink.nonpos] n <= 0 ==> (result == nil && fieldmap(r.next) == old(fieldmap(r.next)) && fieldmap(r.prev) == old(fieldmap(r.prev)))
+//@   ensures [C14.ring.unlink.init] (n > 0 && old(r.next) == nil) ==> (result == r && fieldmap(r.next) == update(old(fieldmap(r.next)), r, r) && fieldmap(r.prev) == update(old(fieldmap(r.prev)), r, r))
+//@   ensures [C14.ring.unlink.result] (n > 0 && old(r.next) != nil) ==> result == old(r.next)
+//@   ensures [C14.ring.unlink.none] (n > 0 && old(r.next) != nil && gpath[n + 1] == nil) ==> (fieldmap(r.next) == old(fieldmap(r.next)) && fieldmap(r.prev) == old(fieldmap(r.prev)))
+//@   ensures [C14.ring.unlink.next] (n > 0 && old(r.next) != nil && gpath[n + 1] != nil) ==> fieldmap(r.next) ==
+//@        update(update(initn(old(fieldmap(r.next)), gpath[n + 1]), r, gpath[n + 1]),
+//@               initp(old(fieldmap(r.next)), old(fieldmap(r.prev)), gpath[n + 1])[gpath[n + 1]], old(r.next))
+//@   ensures [C14.ring.unlink.prev] (n > 0 && old(r.next) != nil && gpath[n + 1] != nil) ==> fieldmap(r.prev) ==
+//@        update(update(initp(old(fieldmap(r.next)), old(fieldmap(r.prev)), gpath[n + 1]), gpath[n + 1], r),
+//@               old(r.next), initp(old(fieldmap(r.next)), old(fieldmap(r.prev)), gpath[n + 1])[gpath[n + 1]])
+
+// Do: "calls f on each element of the ring, in forward order; the behavior is undefined if f changes *r". f is an
+// arbitrary function value, so its effect is unknown; the documented proviso is stated as an assumption at the two
+// call sites: f leaves the next pointers of all ring nodes alone (and cannot touch specification state). Under it, Do
+// does not panic, terminates, and hands f the Value of gpath[0], gpath[1], ..., gpath[gcyc-1] in this order, each
+// exactly once (visn[k] = the node whose Value the k-th call received, cnt = number of calls).
+//@ func (*Ring).Do
+//@   tags C14 C07
+//@   ghost visn [int]int
+//@   ghost cnt int
+//@   requires (r != nil && r.next != nil) ==> cycle(fieldmap(r.next), r, gpath, gcyc)
+//@   ensures [C14.ring.do.init] (r != nil && old(r.next) == nil) ==> (cnt == 1 && visn[0] == r)
+//@   ensures [C14.ring.do.count] (r != nil && old(r.next) != nil) ==> cnt == old(gcyc)
+//@   ensures [C14.ring.do.order] (r != nil && old(r.next) != nil) ==> (forall k :: 0 <= k && k < cnt ==> visn[k] == old(gpath)[k])
+//@   at before call funcvalue#0 ghost cnt = 0
+//@   at before call funcvalue#0 ghost visn = update(visn, 0, r)
+//@   at before call funcvalue#1 ghost visn = update(visn, cnt, p)
+//@   at call funcvalue ghost cnt = cnt + 1
+//@   at call funcvalue assume fieldmap(r.next) == old(fieldmap(r.next)) && fieldmap(r.prev) == old(fieldmap(r.prev)) && gpath == old(gpath) && gcyc == old(gcyc)
+//@   loop 0 invariant gpath == old(gpath) && gcyc == old(gcyc)
+//@   loop 0 invariant old(r.next) == nil ==> (p == r && cnt == 1 && visn[0] == r)
+//@   loop 0 invariant old(r.next) != nil ==> (fieldmap(r.next) == old(fieldmap(r.next)) && 1 <= cnt && cnt <= gcyc && p == gpath[cnt])
+//@   loop 0 invariant old(r.next) != nil ==> (forall k :: 0 <= k && k < cnt ==> visn[k] == gpath[k])
+//@   loop 0 decreases gcyc - cnt
+
+// ---- Buffered: a FIFO queue laid over a ring ----
+// Ghost view: nodes[0..rl] is the ring from the front node (nodes[0] == ring == nodes[rl], rl = ring length). The queue
+// is the sequence of Values of nodes[0..end); the remaining slots nodes[end..rl) are unused and hold nil (that is why
+// Front / RemoveFront answer nil on an empty queue).
+//@ type Buffered
+//@   ghost nodes [int]int
+//@   ghost rl int
+//@   invariant [b.ring] self.ring != nil && self.ring == self.nodes[0]
+//@   invariant [b.size] 0 <= self.end && self.end <= self.rl && self.rl <= 0x7fffffffffffffff && 1 <= self.bsize && self.bsize <= 0x3fffffffffffffff
+//@   invariant [b.cycle] cycle(fieldmap(self.ring.next), self.ring, self.nodes, self.rl)
+//@   invariant [b.prev] forall k :: 0 <= k && k < self.rl ==> fieldmap(self.ring.prev)[self.nodes[k + 1]] == self.nodes[k]
+//@   invariant [b.distinct] forall j, k :: 0 <= j && j < k && k < self.rl ==> self.nodes[j] != self.nodes[k]
+//@   invariant [b.alloc] forall k :: 0 <= k && k < self.rl ==> allocated(self.nodes[k])
+//@   invariant [b.unused] forall k :: self.end <= k && k < self.rl ==> fieldmap(self.ring.Value)[self.nodes[k]] == nil
+
+//@ func NewBuffered
+//@   tags C14 C07
+//@   requires bufferSize <= 0x3fffffffffffffff     // bsize*2 is computed in RemoveFront
+//@   modifies gpath
+//@   ensures [C14.buffered.new] fresh(result) && inv(result) && result.end == 0
+//@   ensures [C14.buffered.new.sizes] result.rl == (old(initialSize) < 1 ? 1 : old(initialSize)) && result.bsize == (old(bufferSize) < 1 ? 1 : old(bufferSize))
+//@   at return ghost result.nodes = gpath
+//@   at return ghost result.rl = initialSize
+
+//@ func (*Buffered).Len
+//@   tags C14 C07
+//@   requires b != nil
+//@   modifies nothing
+//@   ensures [C14.buffered.len] result == b.end
+
+//@ func (*Buffered).Front
+//@   tags C14 C07
+//@   requires b != nil && inv(b)
+//@   modifies nothing
+//@   ensures [C14.buffered.front] result == (b.end > 0 ? fieldmap(b.ring.Value)[b.nodes[0]] : nil)      // head of the queue, nil when empty
+
+// AppendBack: the queue grows by value at the back; nothing else in it changes. When the ring is full, bsize fresh
+// slots are linked in behind the last one first.
+//@ func (*Buffered).AppendBack
+//@   tags C14 C07
+//@   requires b != nil && inv(b)
+//@   requires b.rl + b.bsize <= 0x7fffffffffffffff      // the ring may grow by bsize nodes
+//@   modifies b.end, b.nodes, b.rl, gpath, gcyc, allof(b.ring.next), allof(b.ring.prev), allof(b.ring.Value)
+//@   ensures [C14.buffered.append.inv] inv(b)
+//@   ensures [C14.buffered.append.len] b.end == old(b.end) + 1 && b.ring == old(b.ring) && b.bsize == old(b.bsize)
+//@   ensures [C14.buffered.append.same] forall k :: 0 <= k && k < old(b.end) ==> b.nodes[k] == old(b.nodes)[k]
+//@   ensures [C14.buffered.append.value] fieldmap(b.ring.Value) == update(old(fieldmap(b.ring.Value)), b.nodes[old(b.end)], value)
+//@   ensures [C14.buffered.append.slot] forall k :: 0 <= k && k < old(b.end) ==> b.nodes[k] != b.nodes[old(b.end)]
+//@   ensures [C14.buffered.append.fifo] (forall k :: 0 <= k && k < old(b.end) ==> fieldmap(b.ring.Value)[b.nodes[k]] == old(fieldmap(b.ring.Value))[old(b.nodes)[k]])
+//@        && fieldmap(b.ring.Value)[b.nodes[old(b.end)]] == value
+//@   ensures [C14.buffered.append.grow] b.rl == (old(b.end) >= old(b.rl) ? old(b.rl) + b.bsize : old(b.rl))
+//@   at before call Len#0 ghost gpath = b.nodes
+//@   at before call Len#0 ghost gcyc = b.rl
+//@   at before call Move#0 ghost gpath = b.nodes
+//@   at call Link#0 assert fieldmap(b.ring.next)[b.nodes[b.rl - 1]] == gpath[0] && fieldmap(b.ring.next)[gpath[b.bsize - 1]] == b.ring
+//@   at call Link#0 assert forall k :: 0 <= k && k < b.rl - 1 ==> fieldmap(b.ring.next)[b.nodes[k]] == b.nodes[k + 1]
+//@   at call Link#0 assert forall k :: 0 <= k && k < b.bsize - 1 ==> fieldmap(b.ring.next)[gpath[k]] == gpath[k + 1]
+//@   at call Link#0 ghost b.nodes = lambda k :: (k < b.rl ? b.nodes[k] : (k < b.rl + b.bsize ? gpath[k - b.rl] : b.ring))
+//@   at call Link#0 ghost b.rl = b.rl + b.bsize
+//@   at before call Move#1 ghost gpath = b.nodes
+
+// RemoveFront (on a non-empty queue: every call site checks Len() > 0 first): the head is dropped, the rest moves up
+// by one and keeps its values; the answer is the new head's value, nil when the queue became empty. When more than
+// 2*bsize slots are unused, bsize of the unused slots behind the queue are unlinked - never a used one.
+//@ func (*Buffered).RemoveFront
+//@   tags C14 C07
+//@   requires b != nil && inv(b) && b.end > 0
+//@   modifies b.ring, b.end, b.nodes, b.rl, gpath, gcyc, allof(b.ring.next), allof(b.ring.prev), allof(b.ring.Value)
+//@   ensures [C14.buffered.remove.inv] inv(b)
+//@   ensures [C14.buffered.remove.len] b.end == old(b.end) - 1 && b.bsize == old(b.bsize)
+//@   ensures [C14.buffered.remove.shift] forall k :: 0 <= k && k < b.end ==> (b.nodes[k] == old(b.nodes)[k + 1] && b.nodes[k] != old(b.ring))
+//@   ensures [C14.buffered.remove.values] fieldmap(b.ring.Value) == update(old(fieldmap(b.ring.Value)), old(b.ring), zero(b.ring.Value))
+//@   ensures [C14.buffered.remove.fifo] forall k :: 0 <= k && k < b.end ==> fieldmap(b.ring.Value)[b.nodes[k]] == old(fieldmap(b.ring.Value))[old(b.nodes)[k + 1]]
+//@   ensures [C14.buffered.remove.result] result == (b.end > 0 ? old(fieldmap(b.ring.Value))[old(b.nodes)[1]] : nil)
+//@   ensures [C14.buffered.remove.shrink] b.rl == (old(b.rl) - b.end > 2 * b.bsize ? old(b.rl) - b.bsize : old(b.rl))
+//@   at store ring#0 ghost b.nodes = lambda k :: (k + 1 <= b.rl ? b.nodes[k + 1] : b.nodes[k + 1 - b.rl])
+//@   at store end#0 assert inv(b)
+//@   at before call Len#0 ghost gpath = b.nodes
+//@   at before call Len#0 ghost gcyc = b.rl
+//@   at before call Move#0 ghost gpath = b.nodes
+//@   at before call Unlink#0 assert b.end + b.bsize + 1 <= b.rl && b.nodes[b.end + b.bsize] != nil && fieldmap(b.ring.prev)[b.nodes[b.end + b.bsize + 1]] == b.nodes[b.end + b.bsize]
+//@   at before call Unlink#0 ghost gpath = lambda k :: b.nodes[b.end + k]
+//@   at call Unlink#0 ghost b.nodes = lambda k :: (k <= b.end ? b.nodes[k] : b.nodes[k + b.bsize])
+//@   at call Unlink#0 ghost b.rl = b.rl - b.bsize
+
+// Range: hands fn the values of the queue from the front, in order, until fn answers false. fn is an arbitrary function
+// value; as for Ring.Do, the proviso "fn does not restructure the ring or the queue it is ranging over" is stated as an
+// assumption at the call site. visn[k] = the node whose Value the k-th call received, oks[k] = what fn answered,
+// calls = number of calls made.
+//@ func (*Buffered).Range
+//@   tags C14 C07
+//@   ghost visn [int]int
+//@   ghost oks [int]bool
+//@   ghost calls int
+//@   requires b != nil && inv(b)
+//@   ensures [C14.buffered.range.count] old(b.end) > 0 ==> (1 <= calls && calls <= old(b.end))
+//@   ensures [C14.buffered.range.order] old(b.end) > 0 ==> (forall k :: 0 <= k && k < calls ==> visn[k] == old(b.nodes)[k])
+//@   ensures [C14.buffered.range.stop] old(b.end) > 0 ==> ((forall k :: 0 <= k && k < calls - 1 ==> oks[k]) && (calls < old(b.end) ==> !oks[calls - 1]) && (calls == old(b.end) || !oks[calls - 1]))
+//@   at before call funcvalue#0 assert arg0 == fieldmap(b.ring.Value)[x]
+//@   at before call funcvalue#0 ghost visn = update(visn, rangeiter, x)
+//@   at call funcvalue#0 ghost oks = update(oks, rangeiter, res0)
+//@   at call funcvalue#0 ghost calls = rangeiter + 1
+//@   at call funcvalue#0 assume fieldmap(b.ring.next) == old(fieldmap(b.ring.next)) && fieldmap(b.ring.prev) == old(fieldmap(b.ring.prev)) && b.nodes == old(b.nodes) && b.rl == old(b.rl) && b.ring == old(b.ring)
+//@   loop 0 invariant fieldmap(b.ring.next) == old(fieldmap(b.ring.next)) && fieldmap(b.ring.prev) == old(fieldmap(b.ring.prev)) && b.nodes == old(b.nodes) && b.rl == old(b.rl) && b.ring == old(b.ring)
+//@   loop 0 invariant 0 <= rangeiter && rangeiter < old(b.end) && x == b.nodes[rangeiter]
+//@   loop 0 invariant rangeiter > 0 ==> calls == rangeiter
+//@   loop 0 invariant forall k :: 0 <= k && k < rangeiter ==> (visn[k] == b.nodes[k] && oks[k])
+//@   loop 0 decreases old(b.end) - rangeiter
